@@ -161,9 +161,10 @@ CATALOGUE = {
         # cross-thread clause, validated: the registry-level LR harness of C01 (a lock or a
         # spin inside the delivery sets a shim error flag, judged there as "another error flag is set")
         dict(C01_LR_REG, tiers=list(T), also=["C01", "C02"]),
-        # the two heavier ones (built-in actions + allocator stubs) are kept outside the registered tiers
-        # until they have been seen to finish inside the per-harness limit (DESIGN 9): ./check C03 --only c03_lr_delivery_vs
-        H("c03::proofs::c03_lr_delivery_vs_unregister", ("deep",), lr=True, timeout=3600, what="a delivery (flag + self-pipe wake + conditional shutdown) on thread 1 while thread 0 is anywhere inside unregister() of one of its actions", bounds="Lal-Reps K=3, 2 threads"),
+        # the heavier ones (built-in actions + allocator stubs): the unregister variant finished in 1043 s on the
+        # unchanged tree (thorough); the register variant stays outside the registered tiers until it has been
+        # seen to finish inside the per-harness limit (DESIGN 9): ./check C03 --only c03_lr_delivery_vs_register
+        H("c03::proofs::c03_lr_delivery_vs_unregister", T, lr=True, timeout=3600, what="a delivery (flag + self-pipe wake + conditional shutdown) on thread 1 while thread 0 is anywhere inside unregister() of one of its actions", bounds="Lal-Reps K=3, 2 threads"),
         H("c03::proofs::c03_lr_delivery_vs_register", ("deep",), lr=True, timeout=3600, what="the same while thread 0 is anywhere inside register() of another signal", bounds="Lal-Reps K=3, 2 threads"),
     ],
     "C04": [
